@@ -265,6 +265,10 @@ func randomGen(rng *lib.Rand, maxSteps int) func(r *run) *Step {
 			case th.ph == phHolding && !w.busy.Load():
 				st := ul(t, r.c.Prim == "cmap" && rng.Intn(2) == 0, hooks && rng.Intn(3) == 0)
 				cands = append(cands, st, st)
+				// OuterCancel: the parent context of a reader that HOLDS the lock ends (it keeps holding)
+				if r.c.Prim == "outer" && th.md == "r" && th.cancel != nil && th.ctx.Err() == nil && rng.Intn(2) == 0 {
+					cands = append(cands, Step{Do: "cancel", T: t})
+				}
 			case r.c.Prim == "outer" && th.md == "r" && (th.ph == phInLock && th.status == stBlocked) && th.ctx.Err() == nil:
 				if rng.Intn(3) == 0 {
 					cands = append(cands, Step{Do: "cancel", T: t})
